@@ -5,4 +5,8 @@ ASSUME PrintT(<<"CONST", "two_long", WL_two, Cfg_long>>)
 ASSUME PrintT(<<"CONST", "press", WL_press, Cfg_oc1>>)
 ASSUME PrintT(<<"CONST", "chain_long", WL_chain, Cfg_long>>)
 ASSUME PrintT(<<"CONST", "diamond_long", WL_diamond, Cfg_long>>)
+ASSUME PrintT(<<"CONST", "goon", WL_two, Cfg_goon>>)
+ASSUME PrintT(<<"CONST", "goon_oc", WL_press, Cfg_goon_oc>>)
+ASSUME PrintT(<<"CONST", "extkill", WL_two, Cfg_extkill>>)
+ASSUME PrintT(<<"CONST", "extkill1", WL_press, Cfg_extkill1>>)
 =============================================================================
